@@ -20,7 +20,8 @@ CONSTANTS
     EVal(_, _),    \* EVal(name, k): value of the expression in valuation k
     NV,            \* number of valuations
     PrevOf(_, _),  \* PrevOf(sig, k): previous (register) value of sig in valuation k
-    FsmPrev(_),    \* FsmPrev(k): previous FSM state (a state id) in valuation k
+    FsmPrev(_, _), \* FsmPrev(f, k): previous state (a state id) of FSM f in valuation k
+    NFsm,          \* number of FSMs a module may contain (the second may be nested in a State of the first)
     Conds, Tests, Rhs,   \* subsets of Exprs used as If conditions / Switch tests / right-hand sides
     PatSets(_),    \* PatSets(test): set of pattern sequences usable in Case for that test
     Targets,       \* set of [t |-> target tree, d |-> "comb" | "sync"]   (assignable targets with their domain)
@@ -41,6 +42,10 @@ Cur == IF frames = <<>> THEN AllT ELSE frames[Len(frames)].act
 TopF == frames[Len(frames)]
 BodyOpen == IF frames = <<>> THEN TRUE ELSE TopF.body        \* a statement may be placed here
 InState == \E j \in 1..Len(frames) : frames[j].kind = "fsm" /\ frames[j].body
+(* m.next refers to the innermost enclosing FSM *)
+InnerFsm == LET J == {j \in 1..Len(frames) : frames[j].kind = "fsm" /\ frames[j].body} IN
+            frames[CHOOSE j \in J : \A i \in J : i <= j].f
+NFsmUsed == Cardinality({f \in 1..NFsm : fsm[f].exists})
 NAssign == Cardinality({j \in 1..Len(prog) : prog[j].op \in {"Assign", "Next"}})
 
 Step(rec) == Len(prog) < MaxLen /\ prog' = Append(prog, rec)
@@ -55,7 +60,7 @@ If(c) ==
     /\ Step([op |-> "If", c |-> c])
     /\ frames' = Append(frames, [kind |-> "if", stage |-> "if", body |-> TRUE, outer |-> Cur,
                                  taken |-> [k \in Vals |-> Cur[k] /\ CondT(c)[k]],
-                                 act |-> [k \in Vals |-> Cur[k] /\ CondT(c)[k]], test |-> c,
+                                 act |-> [k \in Vals |-> Cur[k] /\ CondT(c)[k]], test |-> c, f |-> 0,
                                  nsel |-> [k \in Vals |-> IF Cur[k] /\ CondT(c)[k] THEN 1 ELSE 0]])
     /\ UNCHANGED <<comb, nxt, dom, fsm>>
 Elif(c) ==
@@ -76,7 +81,7 @@ Switch(t) ==
     /\ BodyOpen /\ Len(frames) < MaxDepth
     /\ Step([op |-> "Switch", t |-> t])
     /\ frames' = Append(frames, [kind |-> "switch", stage |-> "open", body |-> FALSE, outer |-> Cur,
-                                 taken |-> NoneT, act |-> NoneT, test |-> t, nsel |-> [k \in Vals |-> 0]])
+                                 taken |-> NoneT, act |-> NoneT, test |-> t, f |-> 0, nsel |-> [k \in Vals |-> 0]])
     /\ UNCHANGED <<comb, nxt, dom, fsm>>
 MatchT(t, ps) == [k \in Vals |-> AnyPatMatches(ps, ESh[t], EVal(t, k))]
 Case(ps) ==
@@ -98,34 +103,39 @@ Default ==
     /\ UNCHANGED <<comb, nxt, dom, fsm>>
 
 (* ----------------------------------- FSM ----------------------------------- *)
-FSM(init) ==
-    /\ frames = <<>> /\ ~fsm.exists
-    /\ Step([op |-> "FSM", init |-> init])
-    /\ frames' = Append(frames, [kind |-> "fsm", stage |-> "open", body |-> FALSE, outer |-> AllT,
-                                 taken |-> NoneT, act |-> NoneT, test |-> "", nsel |-> [k \in Vals |-> 0]])
-    /\ fsm' = [fsm EXCEPT !.exists = TRUE, !.init = init]
+FSM(init) ==           \* the first FSM at the top level; a second one anywhere a statement may go (e.g. inside a State)
+    /\ NFsmUsed < NFsm /\ BodyOpen /\ Len(frames) < MaxDepth
+    /\ NFsmUsed = 0 => frames = <<>>
+    /\ LET f == NFsmUsed + 1 IN
+       /\ Step([op |-> "FSM", f |-> f, init |-> init])
+       /\ frames' = Append(frames, [kind |-> "fsm", stage |-> "open", body |-> FALSE, outer |-> Cur,
+                                    taken |-> NoneT, act |-> NoneT, test |-> "", f |-> f, nsel |-> [k \in Vals |-> 0]])
+       /\ fsm' = [fsm EXCEPT ![f].exists = TRUE, ![f].init = init]
     /\ UNCHANGED <<comb, nxt, dom>>
 State(s) ==
     /\ frames # <<>> /\ TopF.kind = "fsm"
-    /\ \A j \in 1..Len(fsm.defined) : fsm.defined[j] # s
+    /\ \A j \in 1..Len(fsm[TopF.f].defined) : fsm[TopF.f].defined[j] # s
     /\ Step([op |-> "State", s |-> s])
-    /\ ReplaceTop([TopF EXCEPT !.stage = "state", !.body = TRUE, !.act = [k \in Vals |-> FsmPrev(k) = s]])
-    /\ fsm' = [fsm EXCEPT !.defined = Append(@, s)]
+    /\ ReplaceTop([TopF EXCEPT !.stage = "state", !.body = TRUE,
+                               !.act = [k \in Vals |-> TopF.outer[k] /\ FsmPrev(TopF.f, k) = s]])
+    /\ fsm' = [fsm EXCEPT ![TopF.f].defined = Append(@, s)]
     /\ UNCHANGED <<comb, nxt, dom>>
 NextSt(s) ==                       \* m.next = s
     /\ BodyOpen /\ InState /\ NAssign < MaxAssign
     /\ Step([op |-> "Next", s |-> s])
-    /\ fsm' = [fsm EXCEPT !.referenced = @ \cup {s},
-                          !.nextst = [k \in Vals |-> IF Cur[k] THEN s ELSE fsm.nextst[k]]]
+    /\ LET f == InnerFsm IN
+       fsm' = [fsm EXCEPT ![f].referenced = @ \cup {s},
+                          ![f].nextst = [k \in Vals |-> IF Cur[k] THEN s ELSE fsm[f].nextst[k]]]
     /\ UNCHANGED <<frames, comb, nxt, dom>>
 
 End ==
     /\ frames # <<>>
     /\ TopF.kind = "switch" => TRUE
     /\ TopF.kind = "fsm" =>
-         /\ fsm.defined # <<>>
-         /\ \A s \in fsm.referenced : \E j \in 1..Len(fsm.defined) : fsm.defined[j] = s
-         /\ fsm.init # 0 => \E j \in 1..Len(fsm.defined) : fsm.defined[j] = fsm.init
+         LET F == fsm[TopF.f] IN
+         /\ F.defined # <<>>
+         /\ \A s \in F.referenced : \E j \in 1..Len(F.defined) : F.defined[j] = s
+         /\ F.init # 0 => \E j \in 1..Len(F.defined) : F.defined[j] = F.init
     /\ Step([op |-> "End"])
     /\ frames' = SubSeq(frames, 1, Len(frames) - 1)
     /\ UNCHANGED <<comb, nxt, dom, fsm>>
@@ -152,8 +162,8 @@ Init ==
     /\ comb = [k \in Vals |-> [s \in Sigs |-> SigInit[s]]]
     /\ nxt = [k \in Vals |-> [s \in Sigs |-> PrevOf(s, k)]]
     /\ dom = [s \in Sigs |-> "none"]
-    /\ fsm = [exists |-> FALSE, init |-> 0, defined |-> <<>>, referenced |-> {},
-              nextst |-> [k \in Vals |-> FsmPrev(k)]]
+    /\ fsm = [f \in 1..NFsm |-> [exists |-> FALSE, init |-> 0, defined |-> <<>>, referenced |-> {},
+                                  nextst |-> [k \in Vals |-> FsmPrev(f, k)]]]
 
 Next ==
     \/ \E c \in Conds : If(c) \/ Elif(c)
@@ -179,6 +189,6 @@ FrameCondition ==
 ValuesInRange ==
     \A s \in Sigs : \A k \in Vals : Fits(comb[k][s], SigSh[s]) /\ Fits(nxt[k][s], SigSh[s])
 (* the state an FSM starts in and returns to on reset *)
-FsmInit == IF fsm.init # 0 THEN fsm.init ELSE IF fsm.defined # <<>> THEN fsm.defined[1] ELSE 0
+FsmInit(f) == IF fsm[f].init # 0 THEN fsm[f].init ELSE IF fsm[f].defined # <<>> THEN fsm[f].defined[1] ELSE 0
 Closed == frames = <<>>
 =============================================================================
